@@ -604,3 +604,15 @@ func lemmaTickMonotone(intervalStart uint64, intervalsPerDay uint32, t1, t2 uint
 //@ loop 0 invariant #idx: 0 <= iter0 && iter0 <= rangelen
 
 //@ private mem:executor.WALCleaner "a WALCleaner is created and used only by the start-up code; no callee of CleanupOldWALFiles holds a pointer to it"
+
+// ---------------------------------------------------------------------------------------------
+// C12 (LAST n over several year files): the backward scan stops moving to older year files only when the file reader
+// reported the limit as filled (finished) or every planned file has been visited; it gives up with an error otherwise.
+//@ func (*Reader).read
+//@ props C12
+//@ option noimplicit
+//@ assumepre io.TimeBucketInfo.GetIntervals.loaded "the file plan carries bucket descriptions handed out by the catalog (loaded)"
+//@ loop 0 invariant true
+//@ loop 1 invariant true
+//@ loop 2 invariant true
+//@ exit #backwardVisitsEveryFile: (result1 == nil && direction == utilsio.LAST) ==> (finished || phi(1, i) < 0)
